@@ -7,6 +7,13 @@ B stream : xp.set on creation paths of every shape (inside and outside the creat
 C evaluators: histories interleaving creations (the whole creation grammar: element-creating steps may follow
   one another), C02 writes and C05 deletes on the implementation vs a plain reference; creations that cannot be
   honoured - also those refused only at a deeper level - must raise and leave the tree exactly as it was.
+  Hidden lists (evaluator hidden_index): lookup reads a single value (scalar or dict; the value of a key or an element
+  of a list) as the list of this one item.  The reading of C03 consistent with it: on such a node `name[1]` IS `name[len]`
+  - the value of a key is wrapped as the first element and exactly one element is appended (`name[1]/y`: the element
+  {y: v}); index 0 / -1 / last() is the node itself (steps that follow create below it); every other index - and [1] on
+  a single value that is an element of a list, where there is no name to hold the new list, as for new(), and [1] written
+  after a hidden [0] (a[0][1]: once a is [old, v] that text no longer leads to v) - cannot be honoured: the assignment
+  raises and the tree stays as it was.
 """
 import copy
 
@@ -19,7 +26,7 @@ from harness.props.c05 import ref_delete
 MANIFEST = dict(
     category="proof",
     technique="Lean 4 theorems over a hand-written model of the xpath engine + differential correspondence with the implementation",
-    text="Lean: the model of _find/_add/__setitem__ follows the code (with the fix patches C03-a, C03-b, C03-c, C04-a applied) branch "
+    text="Lean: the model of _find/_add/__setitem__ follows the code (with the fix patches C03-a, C03-b, C03-c, C04-a, C03-e applied) branch "
          "by branch, including the conversion of a single value by name[new()] and the take-back of a refused creation. Proved, "
          "unbounded in tree size, depth of the existing node q and length of the created chain, for canonical '//'-rooted paths "
          "with plain names: (1) the miss: after tokens that spell an existing dict node, a plain key or name[idx] token whose "
@@ -62,6 +69,16 @@ MANIFEST = dict(
          "history are those without later bare index steps) the final tree equals the reference fold, nothing raises and "
          "every pop returned the node it removed (C03_history, by induction over the history; the root stays a dict of the "
          "same class: C03_history_root; one call: C03_history_step). "
+         "(6) an index step on a single value (hidden list, fix C03-e; the model follows __setitem__, which resolves the "
+         "place of the value itself when _find reports the temporary tuple): for the single (non-list) value old of a key "
+         "name below any existing dict node and ANY spelling e of the index (IdxSp: n, -n, last(), last()-k, a+b), "
+         "C03_index_on_single_value proves the three cases - e = 0 / -1: d['..name[e]'] = v replaces old (setAt); e = 1 = len: "
+         "the slot becomes [old, chain tail v] (name[1] -> [old, v], name[1]/y -> [old, {y: v}]: name[1] IS name[new()], "
+         "C03_index_one_is_new); anything else: SyntaxError and the tree is the tree before the call; what _find itself "
+         "reports is unchanged (C03_find_index_on_single_value), so every lookup returns what it returned. The witnesses "
+         "of the finding are positive instances (C03_hidden_one_ok, C03_hidden_one_tail_ok, C03_hidden_zero_two) or proved "
+         "refusals (C03_hidden_one_in_list_refused: [1] on a single value that is an element of a list, where no key could "
+         "hold the new list; the root; a[0][1], after which that text would not lead to the new element). "
          "Stated, not proved: the unrestricted read-back C03_read_back_stmt (any path text that happens to succeed, names "
          "containing 'new()'); read-back for paths with later bare index steps is checked on instances and by the "
          "evaluator. Differential part: the model is compared with the real code on creation paths of every shape, inside "
@@ -72,7 +89,10 @@ MANIFEST = dict(
     note="Creation grammar: first step name | n[new()] | n[0] | n[len] | [new()] | [len]; later steps name | n[new()] | n[0] | "
          "[new()] | [0] (a bare index only directly after an element-creating step). Relative spellings of the creation "
          "paths and histories whose operations use non-canonical spellings are differential only (single deletes/pops in "
-         "every spelling: C05_delete_spellings, C05_pop_spellings). Hist.ValidOp still carries the conjunct about plain "
+         "every spelling: C05_delete_spellings, C05_pop_spellings). Index steps on single values: proved for the value of a "
+         "key (any spelling of the index, any dict node, fresh names after name[1]); a single value that is an element of a "
+         "list, indexes written as steps of their own (a/[1]), later creation steps after name[1] and hidden indexes in the "
+         "middle of a path are instances + evaluator hidden_index + B. Hist.ValidOp still carries the conjunct about plain "
          "lists that finding C03-c needed; it is no longer used by the proof.",
     design_ref="5/C03",
 )
@@ -207,7 +227,84 @@ def ref_create(ref, base, steps, v):
 
 
 def in_known(c, detail):
-    # no open class: C03-a/b/c are repaired, C03-d (the conversion made by the search stays) went with fix C04-a
+    # no open class after the repairs: C03-a/b/c, C03-d (the conversion made by the search stays; went with fix C04-a),
+    # C03-e (an index step on a single value: the assignment went into a temporary list and was lost).
+    # A class counts only while known_findings/C03.json lists it as open.
+    if c.get("hid") and "C03-e" in {f["id"] for f in core.load_known("C03")[0]}:
+        return "C03-e"
+    return None
+
+
+# ---------------------------------------------------------------- index steps on a single value (hidden lists)
+# (text, steps) that may follow the element-creating step name[1]: names, n[new()], n[0], [new()], [0]
+HID_TAILS = [("", []), ("", []), ("/y9", [("N", "y9")]), ("/y9/z9", [("N", "y9"), ("N", "z9")]), ("/y9[new()]", [("Enew", "y9")]),
+             ("/y9[0]/z9", [("E0", "y9"), ("N", "z9")]), ("[new()]", [("Lnew",)]), ("[0]", [("Lidx", 0)]),
+             ("[new()]/y9", [("Lnew",), ("N", "y9")])]
+# (text, steps) that create below a dict addressed as item 0 / -1 / last() of its hidden list
+HID_BELOW = [("/y9", [("N", "y9")]), ("/y9/z9", [("N", "y9"), ("N", "z9")]), ("/y9[new()]", [("Enew", "y9")]), ("/y9[0]", [("E0", "y9")])]
+HID_SELF = ["[0]", "[-1]", "[last()]", "/[0]", "[ 0 ]", "[0][-1]"]
+HID_ONE = ["[1]", "[ 1 ]", "[0+1]", "/[1]", "[last()+2]"]
+# item [1] of the hidden list of an item [0] of a hidden list: once `a` is the list [old, v] the text a[0][1] does not
+# lead to v any more, so d[xpath] could not be v afterwards - it cannot be honoured
+HID_ONE_NESTED = ["[0][1]", "[-1][1]", "[0]/[1]", "[last()][0][1]"]
+HID_OUT = ["[2]", "[3]", "[7]", "[-2]", "[-5]", "[last()-1]", "[1+1]", "/[2]"]
+
+
+def gen_hidden(rng, tree):
+    """an index step on a node that is not a list; kinds: 'wrap' (name[1] = name[len]: wrap and append),
+    'below' (creation below the node addressed as [0]/[-1]/[last()]), 'refuse'"""
+    singles = [(p, v) for p, v in X.positions(tree) if p and not isinstance(v, list)]
+    if not singles:
+        return None
+    p, node = rng.choice(singles)
+    base = X.render_rel(tree, p)
+    under_key = isinstance(p[-1], str)
+    r = rng.random()
+    c = {"tree": tree, "pos": list(p), "hid": True}
+    if r < 0.08:
+        txt, steps = rng.choice(HID_TAILS)
+        c.update(kind="refuse", xp=base + rng.choice(HID_ONE_NESTED) + txt, steps=[])
+    elif r < 0.4:
+        txt, steps = rng.choice(HID_TAILS)
+        c.update(kind="wrap" if under_key else "refuse", xp=base + rng.choice(HID_ONE) + txt, steps=[list(s) for s in steps])
+    elif r < 0.7:
+        txt, steps = rng.choice(HID_TAILS)
+        c.update(kind="refuse", xp=base + rng.choice(HID_OUT) + txt, steps=[])
+    elif isinstance(node, dict) and "y9" not in node:
+        txt, steps = rng.choice(HID_BELOW)
+        c.update(kind="below", xp=base + rng.choice(HID_SELF) + txt, steps=[list(s) for s in steps])
+    else:
+        if isinstance(node, dict):
+            return None
+        # a step below a scalar, the scalar addressed through its hidden list
+        c.update(kind="refuse", xp=base + rng.choice(HID_SELF) + rng.choice(["/x", "/x/y", "/x[new()]"]), steps=[])
+    return c
+
+
+def check_hidden(c):
+    if c["kind"] == "refuse":
+        return check_refuse(c)
+    o = X.convert(c["tree"], c["mode"])
+    ref = copy.deepcopy(c["tree"])
+    v = copy.deepcopy(c.get("v", "V"))
+    steps = [tuple(s) for s in c["steps"]]
+    pos = c["pos"]
+    r = core.call(lambda: o.__setitem__(c["xp"], v))
+    if r[0] != "ok":
+        return {"raised": r[1], "tree": repr(o)[:300]}
+    if c["kind"] == "wrap":
+        inner, q = ref_fill(steps, copy.deepcopy(v))
+        X.get_at(ref, pos[:-1])[pos[-1]] = [X.get_at(ref, pos), inner]
+        where = list(pos) + [1] + q
+    else:
+        where = ref_create(ref, pos, steps, copy.deepcopy(v))
+    if o != ref or enc_val_plain(o) != enc_val_plain(ref):
+        return {"tree": repr(o)[:400], "reference": repr(ref)[:400]}
+    if X.get_at(o, where) is not v:
+        return {"stored_elsewhere": True}
+    got = core.call(lambda: o[c["xp"].replace("new()", "last()")])
+    if got[0] != "ok" or got[1] is not v:
+        return {"readback": repr(got)[:200]}
     return None
 
 
@@ -229,13 +326,19 @@ def gen_history(rng, tree, nops):
         elif r < 0.8:
             p = rng.choice(poss)
             v = copy.deepcopy(rng.choice(VALUES))
-            ops.append({"op": "set", "pos": list(p), "xp": X.render(rng, ref, p), "v": v})
+            hid = []
+            ops.append({"op": "set", "pos": list(p), "xp": X.render(rng, ref, p, hidden=0.05, hidden_at=hid), "v": v})
             X.get_at(ref, p[:-1])[p[-1]] = copy.deepcopy(v)
+            if hid:
+                ops[-1]["hid"] = hid
         else:
             p = rng.choice(poss)
             rec = rng.random() < 0.3
-            ops.append({"op": "del", "pos": list(p), "xp": X.render(rng, ref, p), "rec": rec})
+            hid = []
+            ops.append({"op": "del", "pos": list(p), "xp": X.render(rng, ref, p, hidden=0.05, hidden_at=hid), "rec": rec})
             ref_delete(ref, list(p), rec)
+            if hid:
+                ops[-1]["hid"] = hid
     return ops
 
 
@@ -395,9 +498,13 @@ def valid_case(c):
                     return False
                 ref_create(ref, op["base"], steps, 0)
             elif op["op"] == "set":
+                if any(isinstance(X.get_at(ref, op["pos"][:k]), list) for k in op.get("hid", [])):
+                    return False
                 X.get_at(ref, op["pos"])
                 X.get_at(ref, op["pos"][:-1])[op["pos"][-1]] = copy.deepcopy(op["v"])
             elif op["op"] == "del":
+                if any(isinstance(X.get_at(ref, op["pos"][:k]), list) for k in op.get("hid", [])):
+                    return False
                 X.get_at(ref, op["pos"])
                 ref_delete(ref, op["pos"], op["rec"])
             else:
@@ -434,6 +541,8 @@ def replay(rp):
     ev = rp.get("evaluator", "")
     if "ops" in c:
         bad = check_history(c)
+    elif ev.startswith("hidden"):
+        bad = check_hidden(c)
     elif ev.startswith("refuse"):
         bad = check_refuse(c)
     else:
@@ -448,6 +557,8 @@ def replay(rp):
 
 def witness_fails(f):
     w = f["witness"]
+    if w.get("kind") == "hidden":
+        return check_hidden(w["case"]) is not None
     o = X.convert(w["tree"], "n0")
     r = core.call(lambda: o.__setitem__(w["xp"], "V"))
     if w["kind"] == "wrapstays":
@@ -490,6 +601,19 @@ def run(ctx):
                 c["pre"] = [xp, "pre0[new()][0]/p"]
             rcases.append(c)
     ctx.evaluate("refuse", rcases, check_refuse, in_known=in_known, nontrivial=lambda c: "/" in c["xp"])
+    # index steps on a single value (hidden lists): [len] = [1] wraps and appends, [0]/[-1]/[last()] is the node itself,
+    # anything else is refused
+    rng = ctx.rng("hidden")
+    hcases = []
+    for _ in range(ctx.budget(500, 12000)):
+        c = gen_hidden(rng, X.gen_plain(rng, rng.choice([1, 2, 3]), "d"))
+        if c:
+            c["mode"] = rng.choice(["n0", "wrap"])
+            if c["kind"] != "refuse":
+                c["v"] = copy.deepcopy(rng.choice(VALUES))
+            hcases.append(c)
+    ctx.evaluate("hidden_index", hcases, check_hidden, in_known=in_known, nontrivial=lambda c: c["kind"] != "refuse" or "/" in c["xp"])
+    ctx.extra["hidden_kinds"] = {k: sum(1 for c in hcases if c["kind"] == k) for k in ("wrap", "below", "refuse")}
     # B: creation paths of every shape (G_ok and not), model vs implementation, tree after success or failure
     rng = ctx.rng("shapes")
     steps_b = []
@@ -502,6 +626,8 @@ def run(ctx):
         steps_b.append({"tree_enc": enc_val(o), "xp": xp, "v": rng.choice(["V", 5, None, {"z": 1}, [1]])})
     for c in rcases[: nflat // 2] + rcases[nflat: nflat + (len(rcases) - nflat) // 2]:
         steps_b.append({"tree_enc": enc_val(X.convert(c["tree"], c["mode"])), "xp": c["xp"], "v": "V"})
+    for c in hcases:
+        steps_b.append({"tree_enc": enc_val(X.convert(c["tree"], c["mode"])), "xp": c["xp"], "v": c.get("v", "V")})
 
     def impl_set(s):
         o = X.build(s["tree_enc"])
@@ -525,4 +651,5 @@ def run(ctx):
     ctx.extra["assumptions"] = [
         "creation paths are built from fresh plain names, new(), 0 and len indexes below an existing dict or list node",
         "the history evaluator covers the whole creation grammar (element-creating steps in any order); the refuse evaluator paths that are refused at the first or at a deeper level",
+        "an index step on a node that is not a list follows the hidden-list convention of lookup: [0]/[-1]/[last()] is the node, [1] = [len] wraps the value of a key and appends, everything else is refused",
     ]
